@@ -222,6 +222,13 @@ def op_table(rep):
         ({"key": "tag:aws:x:y", "op": "eq", "value": "v"}, {"Tags": [{"Key": "aws", "Value": "v"}, {"Key": "aws:x:y", "Value": "w"}]}, False),
         ({"key": "tag:aws:x:y", "op": "eq", "value": "w"}, {"Tags": [{"Key": "aws", "Value": "v"}, {"Key": "aws:x:y", "Value": "w"}]}, True),
         ({"key": "length(Items)", "op": "eq", "value": 2}, {"Items": [1, 2]}, True),
+        # a string literal that happens to be one of the shorthand words is still a literal when an op is given
+        ({"key": "State", "op": "eq", "value": "absent"}, {"State": "absent"}, True), ({"key": "State", "op": "eq", "value": "absent"}, {"State": "x"}, False),
+        ({"key": "State", "op": "ne", "value": "present"}, {"State": "present"}, False), ({"key": "State", "op": "eq", "value": "empty"}, {"State": "empty"}, True),
+        ({"key": "State", "op": "eq", "value": "not-null"}, {"State": "not-null"}, True), ({"key": "State", "op": "in", "value": ["absent", "present"]}, {"State": "present"}, True),
+        # normalize folds case like str.lower (not casefold) and trims
+        ({"key": "Name", "op": "eq", "value": "straße", "value_type": "normalize"}, {"Name": " Straße "}, True),
+        ({"key": "Name", "op": "eq", "value": "strasse", "value_type": "normalize"}, {"Name": "Straße"}, False),
         # tag names with periods; booleans / null inside list values; a null value
         ({"key": "tag:app.owner", "op": "eq", "value": "me"}, {"Tags": [{"Key": "app.owner", "Value": "me"}], "tag:app": {"owner": "x"}}, True),
         ({"key": "tag:app.owner", "op": "eq", "value": "me"}, {"Tags": [{"Key": "app.owner", "Value": "you"}], "tag:app": {"owner": "me"}}, False),
